@@ -35,8 +35,29 @@ def damage(rng, case):
     files[nm] = bytes(b)
     return dict(case, files=files)
 
+def e8_multi_interval(rng):
+    """directed (known finding D12): a CHM whose LZX stream has E8 translation on and spans three reset intervals,
+    with E8 call sites in each; the member in the last interval is extracted after the first one (decoding runs
+    through the resets) and on a fresh decompressor (decoding starts at its reset point)"""
+    case = S.chm_e8_multi_interval(rng)
+    lines = [f"file A0_{nm} {bts.hex()}" for nm, bts in case["files"].items()]
+    nm = "A0_" + case["meta"]["order"][0]
+    names = [m["name"] for m in case["members"]]
+    ia, ib, ic = names.index(b"/a.bin"), names.index(b"/b.bin"), names.index(b"/c.bin")
+    hist = [(0, ia), (0, ic), (0, ib)]
+    lines += ["new chm", f"open i0 {nm}"] + [f"extract i0 h0 {j} out" for (_, j) in hist]
+    inst = 1
+    for (_, j) in sorted(set(hist)):
+        lines += ["new chm", f"open i{inst} {nm}", f"extract i{inst} h{inst} {j} out", f"destroy i{inst}"]; inst += 1
+    return lines, dict(family="chm.e8-multi-interval", hist=[list(x) for x in hist], distinct=[list(x) for x in sorted(set(hist))],
+                       damaged=False, two=False, nontrivial=True, directed="e8-multi-interval")
+
 def generate(ctx):
     rng = ctx.rng
+    try:
+        yield e8_multi_interval(rng)
+    except Exception as e:
+        C.log(f"C08: e8-multi-interval generator failed: {e!r}")
     n = 40 if ctx.tier == "quick" else 1500
     k = 0
     while k < n:
@@ -111,4 +132,7 @@ def judge(ctx, meta, impl, model):
     return fs
 
 def classify(ctx, meta, finding):
+    # D12: only the directed construction (E8 on, >= 2 reset intervals) and only a difference in bytes with both calls OK
+    if meta.get("directed") == "e8-multi-interval" and finding.kind == "violation" and "('0', " in finding.text and finding.text.count("('0', ") == 2:
+        return "D12"
     return None
